@@ -10,13 +10,14 @@ Variable base : Z -> V.
 Variable over1 over2 : Z -> V -> V.
 Variable has_prot : Z -> bool.
 Variable mf : Z -> V.
+Variable sf : Z -> V.
 Variable reqs : Z -> req.
 
 Notation full := (full V base over1 over2 has_prot).
-Notation step := (step V base over1 over2 has_prot mf).
-Notation run := (run V base over1 over2 has_prot mf).
+Notation step := (step V base over1 over2 has_prot mf sf).
+Notation run := (run V base over1 over2 has_prot mf sf).
 Notation init := (init V base).
-Notation alone := (alone V base over1 over2 has_prot mf).
+Notation alone := (alone V base over1 over2 has_prot mf sf).
 Notation state := (state V).
 Notation tstate := (tstate V).
 
@@ -29,6 +30,7 @@ Definition building (p : pc) : bool :=
 
 Definition attrs_ok (t : Z) (th : tstate) := exists ks, reqs t = RAttrs ks /\ progress full ks th.
 Definition memo_ok (t : Z) (th : tstate) := exists ks, reqs t = RMemo ks /\ progress mf ks th.
+Definition sort_ok (t : Z) (th : tstate) := exists ks, reqs t = RSort ks /\ progress sf ks th.
 
 (** per-thread invariant of the repaired program *)
 Definition tinv (s : state) (t : Z) : Prop :=
@@ -55,6 +57,7 @@ Definition tinv (s : state) (t : Z) : Prop :=
   | M_relv => memo_ok t th /\ mlock s = Some t
   | M_rel => memo_ok t th /\ mlock s = Some t /\ memo s (key_of V th) <> None
   | M_get => memo_ok t th /\ memo s (key_of V th) <> None
+  | S_get | S_set => sort_ok t th
   | Done => out th = alone (reqs t)
   end.
 
@@ -66,7 +69,8 @@ Definition ginv (s : state) : Prop :=
   (b_gen s = 1 -> app_wsdl s = Some 0 \/
                   match wlock s with Some u => building (tpc (thr s u)) = true | None => False end) /\
   (forall k r, cache s k = Some r -> r < next s /\ heap s r = full k) /\
-  (forall k x, memo s k = Some x -> x = mf k).
+  (forall k x, memo s k = Some x -> x = mf k) /\
+  (forall k x, scache s k = Some x -> x = sf k).
 
 Definition inv (s : state) : Prop := ginv s /\ forall t, tinv s t.
 
@@ -95,8 +99,10 @@ Lemma inv_init : inv (init Repaired reqs).
 Proof.
   split.
   - unfold ginv. simpl. repeat split; try (intros; discriminate); auto.
-  - intro t. unfold tinv. simpl. destruct (reqs t) as [| |ok e|ks|ks] eqn:Hq; simpl; auto.
+  - intro t. unfold tinv. simpl. destruct (reqs t) as [| |ok e|ks|ks|ks] eqn:Hq; simpl; auto.
     + eauto.
+    + destruct ks; simpl; auto. exists (z :: ks). split; auto.
+      exists []. simpl. repeat split; auto. discriminate.
     + destruct ks; simpl; auto. exists (z :: ks). split; auto.
       exists []. simpl. repeat split; auto. discriminate.
     + destruct ks; simpl; auto. exists (z :: ks). split; auto.
@@ -114,7 +120,7 @@ Ltac split_thread t u :=
   destruct (Z.eq_dec t u) as [E|E]; [subst t; rewrite upd_same | ].
 
 
-Ltac gsplit := unfold ginv; simpl; split; [|split; [|split; [|split; [|split]]]].
+Ltac gsplit := unfold ginv; simpl; split; [|split; [|split; [|split; [|split; [|split]]]]].
 Ltac gbuild Gbuild Hpc u :=
   let Hg := fresh "Hg" in let Ha := fresh "Ha" in let Hb := fresh "Hb" in
   let w := fresh "w" in let E := fresh "E" in let Hwl := fresh "Hwl" in
@@ -122,13 +128,13 @@ Ltac gbuild Gbuild Hpc u :=
   destruct (wlock _) as [w|] eqn:Hwl; [|contradiction];
   destruct (Z.eq_dec w u) as [E|E];
   [ subst w; rewrite Hpc in Hb; discriminate | rewrite upd_other; auto ].
-Ltac gframe Gbuild Hpc u := gsplit; [auto | auto | auto | gbuild Gbuild Hpc u | auto | auto].
+Ltac gframe Gbuild Hpc u := gsplit; [auto | auto | auto | gbuild Gbuild Hpc u | auto | auto | auto].
 
 Lemma step_inv : forall s u s', inv s -> step Repaired reqs s u = Some s' -> inv s'.
 Proof.
   intros s u s' [G T] H.
   pose proof (T u) as Tu. unfold tinv in Tu. unfold step in H.
-  destruct G as (Ggen & Gb & Gapp & Gbuild & Gcache & Gmemo).
+  destruct G as (Ggen & Gb & Gapp & Gbuild & Gcache & Gmemo & Gsort).
   destruct (tpc (thr s u)) eqn:Hpc; try contradiction.
   - (* W_readr *)
     case_eq (app_wsdl s); [intros d Happ|intros Happ]; rewrite Happ in H; inversion H; subst s'; clear H.
@@ -340,6 +346,35 @@ Proof.
     + intro t. unfold tinv at 1. simpl. split_thread t u.
       * rewrite (Gmemo _ _ Hm).
         destruct (progress_consume _ _ _ M_chk1 Hp) as [[Hd Ho]|[Hd Hp']]; rewrite Hd.
+        -- rewrite Ho, Hq. reflexivity.
+        -- exists ks. auto.
+      * other_thread T t u E.
+  - (* S_get *)
+    destruct Tu as (ks & Hq & Hp).
+    destruct (scache s (key_of V (thr s u))) as [x|] eqn:Hc; inversion H; subst s'; clear H.
+    + split.
+      * gframe Gbuild Hpc u.
+      * intro t. unfold tinv at 1. simpl. split_thread t u.
+        -- rewrite (Gsort _ _ Hc).
+           destruct (progress_consume _ _ _ S_get Hp) as [[Hd Ho]|[Hd Hp']]; rewrite Hd.
+           ++ rewrite Ho, Hq. reflexivity.
+           ++ exists ks. auto.
+        -- other_thread T t u E.
+    + split.
+      * gframe Gbuild Hpc u.
+      * intro t. unfold tinv at 1. simpl. split_thread t u.
+        -- simpl. exists ks. auto.
+        -- other_thread T t u E.
+  - (* S_set *)
+    destruct Tu as (ks & Hq & Hp).
+    inversion H; subst s'; clear H. split.
+    + gsplit; auto.
+      * gbuild Gbuild Hpc u.
+      * intros k x Hx. unfold upd in Hx. destruct (k =? key_of V (thr s u)) eqn:Ek.
+        -- apply Z.eqb_eq in Ek. subst k. congruence.
+        -- eauto.
+    + intro t. unfold tinv at 1. simpl. split_thread t u.
+      * destruct (progress_consume _ _ _ S_get Hp) as [[Hd Ho]|[Hd Hp']]; rewrite Hd.
         -- rewrite Ho, Hq. reflexivity.
         -- exists ks. auto.
       * other_thread T t u E.
